@@ -1014,6 +1014,7 @@ def run(ctx):
         ALWAYS = [
             "int f(int n, int done, int ok){ while (n > 0) { done = false; ok = true; n = n - 1; } }",
             "int f(int n, int N, int a, int A){ while (n > 0) { a = A + N; N = a + n; } A = n; }",
+            "int f(int x, int n, int N, int a, int A, int b, int B){ x = n * N; a = A * a; b = B * b; x = x * b; }",
             "int f(int x, int y, int z, int w){ log4(x, y, z, w); if (x > 0) { y = g(z, w, x); } return h(x, y, z); }",
             "int f(int a, int b, int c, int d, int e){ while (a > 0) { if (b > 0) { c = d + e; } else { e = c + d; } d = true; b = false; } }",
         ]
